@@ -181,6 +181,8 @@ private theorem fx3 : Config.fixed.maskImplType = false := rfl
 private theorem fx4 : Config.fixed.preciseResolver = true := rfl
 private theorem fx5 : Config.fixed.extraArgRequired = true := rfl
 private theorem fx6 : Config.fixed.subscriptionChecked = true := rfl
+private theorem fx7 : Config.fixed.ifaceResolverChecked = false := rfl
+private theorem fx8 : Config.fixed.notCallableReported = true := rfl
 
 private theorem notInputErr_nil (s : SchemaD) (r : Rule) (o : String) (a : ArgD) :
     notInputErr s r o a = [] ↔ isInputType s a.type = true := by
@@ -216,26 +218,30 @@ private theorem resolverArgErr_nil (path : String) (ps : List ParamD) (varKw : B
       cases h1 : (leadingNames ps).contains cl.name <;> cases hk : cl.kind <;> cases varKw <;> simp [h1, hk] <;> simp_all
 
 private theorem validateResolverArguments_nil (path : String) (args : List ArgD) (r : ResolverD) :
-    validateResolverArguments path args r = [] ↔ (r.inspectable = true → ResolverCompatible args r) := by
+    validateResolverArguments path args r = [] ↔
+      (r.callable = true ∧ (r.inspectable = true → ResolverCompatible args r)) := by
   unfold validateResolverArguments validateResolverArgumentsWith ResolverCompatible
-  cases hi : r.inspectable with
-  | false => simp
+  cases hc : r.callable with
+  | false => simp [fx8]
   | true =>
-    simp only [Bool.not_true, Bool.false_eq_true, if_false, fx4, if_true, resolverErrs, List.append_eq_nil_iff,
-      List.flatMap_eq_nil_iff, resolverArgErr_nil, forall_const]
-    rw [and_assoc]
-    refine and_congr ?_ (and_congr Iff.rfl ?_)
-    · cases hv : r.params.any (·.kind == .varPos) <;> simp [Nat.not_lt]
-    · constructor
-      · intro h p hp
-        have := h p hp
-        cases hd : p.hasDefault <;> simp_all
-      · intro h p hp
-        simp [h p hp]
+    cases hi : r.inspectable with
+    | false => simp
+    | true =>
+      simp only [Bool.not_true, Bool.false_eq_true, if_false, fx4, if_true, resolverErrs, List.append_eq_nil_iff,
+        List.flatMap_eq_nil_iff, resolverArgErr_nil, forall_const, true_and]
+      rw [and_assoc]
+      refine and_congr ?_ (and_congr Iff.rfl ?_)
+      · cases hv : r.params.any (·.kind == .varPos) <;> simp [Nat.not_lt]
+      · constructor
+        · intro h p hp
+          have := h p hp
+          cases hd : p.hasDefault <;> simp_all
+        · intro h p hp
+          simp [h p hp]
 
 private theorem resolverPart_nil (rv : Bool) (path : String) (args : List ArgD) (o : Option ResolverD) :
     resolverPart Config.fixed rv path args o = [] ↔
-      ∀ r, o = some r → rv = true → r.inspectable = true → ResolverCompatible args r := by
+      ∀ r, o = some r → rv = true → (r.callable = true ∧ (r.inspectable = true → ResolverCompatible args r)) := by
   unfold resolverPart
   cases o with
   | none => simp
@@ -247,22 +253,43 @@ private theorem resolverPart_nil (rv : Bool) (path : String) (args : List ArgD) 
       unfold validateResolverArguments at this
       simp [this]
 
+private theorem resolversOfField_nil (s : SchemaD) (rv : Bool) (t : TypeD) (f : FieldD) :
+    resolversOfField Config.fixed s rv t f = [] ↔
+      ∀ r, (pickResolver s t f = some r ∨ f.subscriptionResolver = some r) → rv = true →
+        (r.callable = true ∧ (r.inspectable = true → ResolverCompatible f.args r)) := by
+  unfold resolversOfField
+  simp only [List.append_eq_nil_iff, fx6, if_true, resolverPart_nil]
+  constructor
+  · rintro ⟨h3, h4⟩ r hr hrv
+    rcases hr with hr | hr
+    · exact h3 r hr hrv
+    · exact h4 r hr hrv
+  · intro h
+    exact ⟨fun r hr hrv => h r (Or.inl hr) hrv, fun r hr hrv => h r (Or.inr hr) hrv⟩
+
 private theorem fieldBody_nil (s : SchemaD) (rv : Bool) (t : TypeD) (f : FieldD) :
     fieldBody s rv t f = [] ↔ (isOutputType s f.type = true ∧ ArgsOK s f.args ∧ ResolverOK s rv t f) := by
   have ha := validateArguments_nil s .dupArg .argNotInput (t.name ++ "." ++ f.name) f.args
   unfold validateArguments at ha
   unfold fieldBody fieldBodyWith ResolverOK
-  simp only [List.append_eq_nil_iff, ha, resolverPart_nil, fx6, if_true]
-  constructor
-  · rintro ⟨⟨⟨h1, h2⟩, h3⟩, h4⟩
-    refine ⟨?_, h2, ?_⟩
-    · cases ho : isOutputType s f.type <;> simp_all
-    · intro r hr
-      rcases hr with hr | hr
-      · exact h3 r hr
-      · exact h4 r hr
-  · rintro ⟨h1, h2, h3⟩
-    exact ⟨⟨⟨by simp [h1], h2⟩, fun r hr => h3 r (Or.inl hr)⟩, fun r hr => h3 r (Or.inr hr)⟩
+  simp only [List.append_eq_nil_iff, ha, fx7, Bool.or_false]
+  by_cases hk : t.kind = .object
+  · have hk' : (t.kind == Kind.object) = true := by simp [hk]
+    simp only [hk', if_true, resolversOfField_nil]
+    constructor
+    · rintro ⟨⟨h1, h2⟩, h3⟩
+      refine ⟨?_, h2, fun r hr hrv _ => h3 r hr hrv⟩
+      cases ho : isOutputType s f.type <;> simp_all
+    · rintro ⟨h1, h2, h3⟩
+      exact ⟨⟨by simp [h1], h2⟩, fun r hr hrv => h3 r hr hrv hk⟩
+  · have hk' : (t.kind == Kind.object) = false := by simpa using hk
+    simp only [hk', Bool.false_eq_true, if_false, and_true]
+    constructor
+    · rintro ⟨h1, h2⟩
+      refine ⟨?_, h2, fun r _ _ hko => absurd hko hk⟩
+      cases ho : isOutputType s f.type <;> simp_all
+    · rintro ⟨h1, h2, _⟩
+      exact ⟨by simp [h1], h2⟩
 
 private theorem validateFields_nil (s : SchemaD) (rv : Bool) (t : TypeD) :
     validateFields s rv t = [] ↔ FieldsOK s rv t := by
@@ -513,6 +540,11 @@ private theorem step_inv_resolver (st : CacheState) (op : Op) (hop : isResolverO
     · intro hv
       have : cfgCacheTracksAssignments = true := by decide
       simp [this] at hv
+  | assignArguments tn fn args =>
+    simp only [step]
+    intro hv
+    have : cfgCacheTracksArguments = true := by decide
+    simp [this] at hv
   | replaceTypes es ds hl => simp [isResolverOp] at hop
 
 /-- **Cache soundness (the statement: the verdict is recomputed after resolvers are reassigned).**
@@ -902,6 +934,7 @@ theorem step_inv (st : CacheState) (op : Op) (hh : HonestOp st op) (h : CacheInv
   | registerResolver tn fn r a sm => exact step_inv_resolver st _ rfl h
   | registerSubscription tn fn r a sm => exact step_inv_resolver st _ rfl h
   | assignResolver lvl tn fn r sm => exact step_inv_resolver st _ rfl h
+  | assignArguments tn fn args => exact step_inv_resolver st _ rfl h
 
 /-- every replace request met along the history is honest about object identity -/
 def HonestRun : CacheState → List Op → Prop
@@ -924,6 +957,10 @@ theorem cache_sound_all (st : CacheState) (h : CacheInv st) (ops : List Op) (hh 
 theorem cache_tracks_assignments : cfgCacheTracksAssignments = true := by decide
 /-- fix C13-HH2 is in the tree: the signature that is validated is the one of the callable the executor calls -/
 theorem signature_of_the_callable : cfgOuterSignature = true := by decide
+/-- fix C13-HHH3 is in the tree: the cached verdict also stands for the arguments of every field (plain assignment
+    `field.arguments = [...]` makes `validate()` recompute). Types, names and members edited in place are NOT tracked:
+    the statement speaks of registering / reassigning resolvers (see ASSUMPTIONS). -/
+theorem cache_tracks_arguments : cfgCacheTracksArguments = true := by decide
 
 /-! #### the legacy variants of `_replace_types_and_directives` (code that no longer exists) -/
 
